@@ -13,7 +13,12 @@
 #include <stdlib.h>
 #include <string.h>
 #include <stdint.h>
+#include <signal.h>
+#include <setjmp.h>
 #include <mps/mps.h>
+
+static sigjmp_buf fpe_env;
+static void on_fpe (int s) { (void)s; siglongjmp (fpe_env, 1); }
 
 struct snap { int size, prec; long exp; mp_limb_t *d; int n; };
 
@@ -55,8 +60,11 @@ static void putd (double d) { uint64_t u; memcpy (&u, &d, 8); printf (" %016llx"
 int main (void)
 {
   static char line[1 << 17]; static char tok[32][8200];
+  signal (SIGFPE, on_fpe);
   while (fgets (line, sizeof line, stdin))
     {
+      /* GMP raises SIGFPE on division by zero: report it as the outcome of this call */
+      if (sigsetjmp (fpe_env, 1)) { printf ("E SIGFPE\n"); fflush (stdout); continue; }
       int nt = 0, pos = 0, adv;
       while (nt < 32 && sscanf (line + pos, "%8199s%n", tok[nt], &adv) == 1) { pos += adv; nt++; }
       if (nt < 25) { if (nt) fprintf (stderr, "short line (%d tokens)\n", nt); continue; }
@@ -72,7 +80,7 @@ int main (void)
       rdpe_t e1, e2; rdpe_Mnt (e1) = dbits (tok[21]); rdpe_Esp (e1) = atol (tok[22]);
       rdpe_Mnt (e2) = dbits (tok[23]); rdpe_Esp (e2) = atol (tok[24]);
       __mpc_struct *rc = o[0], *c1 = o[1], *c2 = o[2]; __mpf_struct *hh = h;
-      int mpfop = !strncmp (op, "mpf_", 4) && strcmp (op, "mpf_get_rdpe") && strcmp (op, "mpf_set_rdpe");
+      int mpfop = !strncmp (op, "mpf_", 4) && strstr (op, "si") != NULL;   /* gmptools helpers: (h, g, si) */
       if (mpfop) { if (pat == 1) hh = g; }
       else switch (pat) { case 1: c1 = rc; break; case 2: c2 = rc; break; case 3: c2 = c1; break; case 4: c1 = rc; c2 = rc; break; }
       mpf_srcptr regs[8] = { mpc_Re (o[0]), mpc_Im (o[0]), mpc_Re (o[1]), mpc_Im (o[1]), mpc_Re (o[2]), mpc_Im (o[2]), g, h };
@@ -144,7 +152,6 @@ int main (void)
       else if (IS ("mpf_set")) mpf_set (mpc_Re (rc), mpc_Re (c1));
       else { fprintf (stderr, "unknown op %s\n", op); exit (3); }
       (void)have_aux;
-      if (mpfop && !strcmp (op, "mpf_add")) {}
       printf ("R %lu %lu %lu %lu %lu |", (unsigned long)mpf_get_prec (mpc_Re (o[0])), (unsigned long)mpf_get_prec (mpc_Re (o[1])),
               (unsigned long)mpf_get_prec (mpc_Re (o[2])), (unsigned long)mpf_get_prec (g), (unsigned long)mpf_get_prec (h));
       unsigned mask = 0;
@@ -152,7 +159,7 @@ int main (void)
       printf (" | %02x |", mask);
       for (i = 0; i < naux_d; i++) putd (auxd[i]);
       for (i = 0; i < naux_l; i++) printf (" %ld", auxl[i]);
-      printf ("\n");
+      printf ("\n"); fflush (stdout);
       for (i = 0; i < 8; i++) free (sn[i].d);
       for (i = 0; i < 3; i++) mpc_clear (o[i]);
       mpf_clear (g); mpf_clear (h);
